@@ -9,6 +9,7 @@
 package vsched
 
 import (
+	"unsafe"
 	"fmt"
 	"runtime"
 	"sync"
@@ -23,6 +24,7 @@ type thread struct {
 	daemon  bool        // spawned by the code under test (go statement)
 	body    func()
 	kind    int           // kind of the next logged access of this thread (0 = unspecified)
+	addr    unsafe.Pointer // its address, when the shim knows it
 	dead    chan struct{} // closed when the goroutine has gone
 }
 
@@ -52,6 +54,8 @@ var (
 	finished    chan struct{}
 	Acc         []int // thread id of every logged (sync) access, in execution order
 	AccChoice   []int // parallel to Acc: the select case taken (index among the ready ones), -1 otherwise
+	AccLoc      []int // parallel to Acc: which object the access touches (numbered by first access; 0 = unknown)
+	locIdx      map[unsafe.Pointer]int
 	AccKind     []int // parallel to Acc: what the access is (K* constants; 0 = unspecified)
 	// Picker, when set, decides the scheduling points beyond the forced prefix:
 	// it gets the ids of the runnable threads (the current one first when
@@ -133,6 +137,14 @@ func K(k int) {
 	}
 }
 
+// At announces the address of the calling thread's next logged access (vatomic shims): the replayer checks that two
+// accesses touch the same object in the implementation exactly when they touch the same location in the model.
+func At(p unsafe.Pointer) {
+	if active && atomicDepth == 0 {
+		cur.addr = p
+	}
+}
+
 // StepK is K followed by Step.
 func StepK(k int) {
 	if !active || atomicDepth > 0 {
@@ -145,6 +157,21 @@ func StepK(k int) {
 func logKind() {
 	AccKind = append(AccKind, cur.kind)
 	cur.kind = 0
+	idx := 0
+	if cur.addr != nil {
+		// objects are numbered in the order they are first accessed; the map keeps them alive for the run, so that no
+		// address is reused by a later allocation
+		if locIdx == nil {
+			locIdx = map[unsafe.Pointer]int{}
+		}
+		var ok bool
+		if idx, ok = locIdx[cur.addr]; !ok {
+			idx = len(locIdx) + 1
+			locIdx[cur.addr] = idx
+		}
+		cur.addr = nil
+	}
+	AccLoc = append(AccLoc, idx)
 }
 
 // Log records one sync access of the running thread.
@@ -466,6 +493,7 @@ func Run(bodies []func(), forced []int) []Choice {
 	threads = nil
 	prefix, Trace, Sched, preempts, steps, Aborted, Acc, AccChoice = forced, nil, nil, 0, 0, "", nil, nil
 	AccKind = nil
+	AccLoc, locIdx = nil, nil
 	lastRun, consecutive = -1, 0
 	finished = make(chan struct{})
 	for _, body := range bodies {
